@@ -83,8 +83,24 @@ type c27Obs struct {
 	Outcomes []int     `json:"outcomes"` // per event fed: 0 nil, 1 discarded as late (warning logged), 2 error
 	Segs     []c27OSeg `json:"segs"`     // in creation order
 	Reported []int64   `json:"reported"` // OnSegmentComplete durations in completion order
-	Created  []string  `json:"-"`
-	Done     []string  `json:"-"`
+	// per completed segment, in completion order (bookkeeping of the driver, used for the class and the description
+	// only): the largest end among the samples written to it, and the end of the sample written last
+	EndMax  []int64  `json:"end_max"`
+	EndLast []int64  `json:"end_last"`
+	Created []string `json:"-"`
+	Done    []string `json:"-"`
+}
+
+// c27EndNotLast counts the completed segments whose last written sample ends before another sample written earlier
+// (several tracks out of step: the input class in which "end of the last sample" and "end of the media" differ).
+func (o *c27Obs) c27EndNotLast() int {
+	n := 0
+	for i := range o.EndMax {
+		if i < len(o.EndLast) && o.EndLast[i] < o.EndMax[i] {
+			n++
+		}
+	}
+	return n
 }
 
 type c27Log struct{ late int }
@@ -149,8 +165,26 @@ func c27Run(dir string, s *c27Stream) (*c27Obs, []string, error) {
 		tr.initialize()
 		f.tracks = append(f.tracks, tr)
 	}
+	// bookkeeping for the class: the ends of the samples written to the current segment
+	pend := map[int]int64{}
+	var ends []int64
+	flush := func() {
+		if len(ends) == 0 {
+			return
+		}
+		mx := ends[0]
+		for _, e := range ends {
+			if e > mx {
+				mx = e
+			}
+		}
+		obs.EndMax = append(obs.EndMax, mx)
+		obs.EndLast = append(obs.EndLast, ends[len(ends)-1])
+		ends = nil
+	}
 	for _, ev := range s.Events {
 		before := lg.late
+		done := len(obs.Done)
 		err := f.tracks[ev.Track].write(&formatFMP4Sample{
 			Sample: &fmp4.Sample{IsNonSyncSample: ev.NonSync, Payload: bytes.Repeat([]byte{byte(ev.Size)}, ev.Size)},
 			dts:    ev.DTS,
@@ -164,11 +198,28 @@ func c27Run(dir string, s *c27Stream) (*c27Obs, []string, error) {
 		default:
 			obs.Outcomes = append(obs.Outcomes, 0)
 		}
+		if pd, ok := pend[ev.Track]; ok {
+			d := ev.DTS
+			if d < pd {
+				d = pd
+			}
+			if err == nil && lg.late == before {
+				rate := int(s.Tracks[ev.Track].Rate)
+				ends = append(ends, int64(timestampToDuration(pd, rate)+timestampToDuration(int64(uint32(d-pd)), rate)))
+			}
+			pend[ev.Track] = d
+		} else {
+			pend[ev.Track] = ev.DTS
+		}
+		if len(obs.Done) != done {
+			flush() // the call wrote its sample and then switched segments
+		}
 		if err != nil {
 			break // the recorder instance stops at the first error and closes the format
 		}
 	}
 	f.close()
+	flush()
 	return obs, obs.Created, nil
 }
 
@@ -261,7 +312,11 @@ func c27ReadSeg(p string, checkPayload bool) (*c27OSeg, error) {
 
 // ---- generator ----
 
-func c27GenStream(rnd *vRand, k int) *c27Stream {
+// family: "" = the general generator; "ahead" = at least two tracks, one of which is handed in 200..900 ms ahead of
+// the others (audio ahead of video, or video ahead of audio): whenever a segment is closed - by a switch or at the
+// end - the sample written last ends well before one written earlier; "sparse" = the same with an audio track of
+// long samples (0.3..1.2 s each) that is handed in ahead; "behind" = one track is handed in 200..900 ms late
+func c27GenStream(rnd *vRand, k int, family string) *c27Stream {
 	s := &c27Stream{Kind: "av"}
 	ms := int64(time.Millisecond)
 	s.PartDur = int64(40+rnd.Intn(360)) * ms
@@ -273,6 +328,21 @@ func c27GenStream(rnd *vRand, k int) *c27Stream {
 		nVideo, nAudio, s.Kind = 0, 1+rnd.Intn(2), "audio-only"
 	case 1:
 		nVideo, s.Kind = 2, "two-video"
+	}
+	aheadTrack, sparseTrack := -1, -1
+	if family != "" {
+		s.Kind = family
+		nVideo = 1
+		if rnd.Chance(1, 6) {
+			nVideo = 0
+		}
+		nAudio = 1 + rnd.Intn(2)
+		if nVideo == 0 {
+			nAudio = 2
+		}
+		if rnd.Chance(1, 2) {
+			s.SegDur = 3600 * 1000 * ms // one segment, closed by formatFMP4.close
+		}
 	}
 	for i := 0; i < nVideo; i++ {
 		s.Tracks = append(s.Tracks, c27TrackCfg{Rate: 90000, Video: true, Codec: rnd.Intn(2)})
@@ -288,9 +358,34 @@ func c27GenStream(rnd *vRand, k int) *c27Stream {
 	if nVideo == 1 && nAudio > 0 && rnd.Chance(1, 4) {
 		s.Tracks[0], s.Tracks[len(s.Tracks)-1] = s.Tracks[len(s.Tracks)-1], s.Tracks[0]
 	}
-	if rnd.Chance(1, 8) {
+	if family == "" && rnd.Chance(1, 8) {
 		s.MaxPart = int64(200 + rnd.Intn(1500))
 		s.Kind += "+small-max-part"
+	}
+	if family != "" {
+		// mostly the video track is the one behind (it is the video track that switches segments: the switch then comes
+		// from a call whose sample ends before the audio already written); the sparse track is an audio track
+		aheadTrack = rnd.Intn(len(s.Tracks))
+		wantVideo := family == "behind"
+		if family == "sparse" || (nVideo > 0 && rnd.Chance(3, 4)) {
+			for s.Tracks[aheadTrack].Video != (wantVideo && family != "sparse") {
+				aheadTrack = rnd.Intn(len(s.Tracks))
+			}
+		}
+		if family == "sparse" {
+			sparseTrack = aheadTrack
+		}
+	}
+	lead := int64(0)
+	if family != "" {
+		lead = int64(200+rnd.Intn(700)) * ms
+		// a segment duration below the lag between the tracks is the known name collision: stay above it
+		if s.SegDur < lead+300*ms {
+			s.SegDur = lead + int64(300+rnd.Intn(400))*ms
+		}
+		if family == "behind" {
+			lead = -lead // the chosen track is handed in late instead
+		}
 	}
 	// stream start: mostly positive timestamps; sometimes negative ones
 	t0 := int64(rnd.Intn(3000)) * ms
@@ -302,11 +397,12 @@ func c27GenStream(rnd *vRand, k int) *c27Stream {
 	type pend struct {
 		ev      c27Event
 		arrival int64
+		tdur    int64
 	}
 	var all []pend
 	jitterNTP := rnd.Chance(1, 3)
 	driftAt := int64(-1)
-	if rnd.Chance(1, 12) {
+	if family == "" && rnd.Chance(1, 12) {
 		driftAt = t0 + int64(rnd.Intn(int(total/ms)))*ms
 		s.Kind += "+drift"
 	}
@@ -317,6 +413,12 @@ func c27GenStream(rnd *vRand, k int) *c27Stream {
 			off = int64(rnd.Intn(3200)-1600) * ms
 		}
 		lat := int64(rnd.Intn(60)) * ms // arrival latency of the track
+		if family != "" {
+			off = int64(rnd.Intn(60)-30) * ms
+		}
+		if ti == aheadTrack {
+			lat = -lead
+		}
 		var step int64
 		gop, left := 1+rnd.Intn(12), 0
 		if tc.Video {
@@ -331,6 +433,9 @@ func c27GenStream(rnd *vRand, k int) *c27Stream {
 			step = 960
 		} else {
 			step = 1024
+		}
+		if ti == sparseTrack {
+			step = tc.Rate * int64(300+rnd.Intn(900)) / 1000
 		}
 		dts := (t0 + off) * tc.Rate / int64(time.Second)
 		end := (t0 + off + total) * tc.Rate / int64(time.Second)
@@ -358,9 +463,13 @@ func c27GenStream(rnd *vRand, k int) *c27Stream {
 			if driftAt >= 0 && tdur >= driftAt {
 				ev.NTP += 5200
 			}
-			all = append(all, pend{ev: ev, arrival: tdur + lat + int64(rnd.Intn(8))*ms})
+			all = append(all, pend{ev: ev, arrival: tdur + lat + int64(rnd.Intn(8))*ms, tdur: tdur})
 			// next timestamp: regular, sometimes jittered, rarely backwards or a gap
-			switch r := rnd.Intn(60); {
+			r := rnd.Intn(60)
+			if family != "" && r < 2 {
+				r = 59
+			}
+			switch {
 			case r == 0:
 				dts -= step / 2
 			case r == 1:
@@ -373,6 +482,41 @@ func c27GenStream(rnd *vRand, k int) *c27Stream {
 		}
 	}
 	sort.SliceStable(all, func(a, b int) bool { return all[a].arrival < all[b].arrival })
+	if family != "" && len(all) > 0 {
+		// the stream ends while every track is still being handed in (when the first track runs out): at the final
+		// close the tracks are as much out of step as at every switch
+		lastOf := map[int]int64{}
+		for _, p := range all {
+			lastOf[p.ev.Track] = p.arrival
+		}
+		cut := all[len(all)-1].arrival
+		for _, a := range lastOf {
+			if a < cut {
+				cut = a
+			}
+		}
+		var kept []pend
+		for _, p := range all {
+			if p.arrival <= cut {
+				kept = append(kept, p)
+			}
+		}
+		all = kept
+		// ... and the last call does not come from the track that is furthest in media time
+		for len(all) > 1 {
+			last, furthest := all[len(all)-1], true
+			for _, p := range all[:len(all)-1] {
+				if p.tdur > last.tdur {
+					furthest = false
+					break
+				}
+			}
+			if !furthest {
+				break
+			}
+			all = all[:len(all)-1]
+		}
+	}
 	for _, p := range all {
 		s.Events = append(s.Events, p.ev)
 	}
@@ -448,6 +592,9 @@ func c27SegClass(s *c27Stream, o *c27Obs) string {
 	if c27Collides(o.Created) {
 		cl += "+name-collision"
 	}
+	if o.c27EndNotLast() > 0 {
+		cl += "+end-not-last"
+	}
 	switch n := len(o.Segs); {
 	case n == 0:
 		cl += " 0seg"
@@ -459,9 +606,23 @@ func c27SegClass(s *c27Stream, o *c27Obs) string {
 	return cl
 }
 
+// c27Family: besides the n general streams, every run has n/4 (at least 6) streams of the families in which the
+// tracks are out of step when a segment is closed.
+func c27Family(k, n int) string {
+	if k < n {
+		return ""
+	}
+	return []string{"ahead", "sparse", "behind"}[(k-n)%3]
+}
+
 func c27SegCases(t *testing.T, out *vOut, rnd *vRand, root string, n int) {
-	for k := 0; k < n; k++ {
-		s := c27GenStream(rnd, k)
+	extra := n / 4
+	if extra < 6 {
+		extra = 6
+	}
+	endNotLast, closed := 0, 0
+	for k := 0; k < n+extra; k++ {
+		s := c27GenStream(rnd, k, c27Family(k, n))
 		dir := filepath.Join(root, fmt.Sprintf("seg%04d", k))
 		obs, err := c27Feed(dir, s)
 		if err != nil {
@@ -472,8 +633,13 @@ func c27SegCases(t *testing.T, out *vOut, rnd *vRand, root string, n int) {
 		for _, g := range obs.Segs {
 			nparts += len(g.Parts)
 		}
+		endNotLast += obs.c27EndNotLast()
+		closed += len(obs.Reported)
 		out.Case(cqApp("CSeg", c27CoqStream(s), c27CoqObs(obs)),
-			map[string]any{"stream": s, "observed": obs, "name_collision": c27Collides(obs.Created)},
+			map[string]any{"stream": s, "observed": obs, "name_collision": c27Collides(obs.Created),
+				"segments_whose_last_written_sample_does_not_end_last": obs.c27EndNotLast()},
 			"segmenter: "+c27SegClass(s, obs), nparts > 1)
 	}
+	out.extra["end-not-last"] = fmt.Sprintf("segmenter: %d of %d closed segments have a last written sample that ends "+
+		"before a sample written earlier (tracks out of step at the close)", endNotLast, closed)
 }
